@@ -33,3 +33,30 @@ pub open spec fn x25519_base(n: Seq<u8>) -> Seq<u8> {
 }
 
 } // verus!
+
+verus! {
+
+/// key-exchange session keys (libsodium crypto_kx): BLAKE2b-64(q || client_pk || server_pk)
+pub open spec fn kx_keys(q: Seq<u8>, client_pk: Seq<u8>, server_pk: Seq<u8>) -> Seq<u8> {
+    crate::spec_hash::blake2b_spec(64, Seq::<u8>::empty(), zeros(16), zeros(16), Seq::<u8>::empty() + q + client_pk + server_pk)
+}
+
+/// Curve fact (assumed): Diffie-Hellman commutes for honestly generated pairs
+pub broadcast axiom fn axiom_x25519_commutes(a: Seq<u8>, b: Seq<u8>)
+    ensures
+        #[trigger] x25519(a, x25519_base(b)) == x25519(b, x25519_base(a)),
+;
+
+/// C05: the client's (rx, tx) are the server's (tx, rx) for honest key pairs — a theorem over the two session-key contracts
+pub proof fn lemma_kx_agree(csk: Seq<u8>, ssk: Seq<u8>)
+    ensures
+        ({
+            let cpk = x25519_base(csk);
+            let spk = x25519_base(ssk);
+            kx_keys(x25519(csk, spk), cpk, spk) == kx_keys(x25519(ssk, cpk), cpk, spk)
+        }),
+{
+    broadcast use axiom_x25519_commutes;
+}
+
+} // verus!
